@@ -174,7 +174,16 @@ def emit_type(item, ledger, global_rewrites):
     if it["kind"] == "struct":
         for f in it["fields"]:
             if f["vis"] == "" and f["name"]:
-                ins.append((f["span"][0], b"pub "))
+                # skip field attributes (#[...]) so that `pub` lands in front of the field name
+                pos = f["span"][0]
+                ftxt = src[pos:f["span"][1]]
+                while True:
+                    mm = re.match(rb"\s*#\[[^\]]*\]\s*", ftxt)
+                    if not mm:
+                        break
+                    pos += mm.end()
+                    ftxt = ftxt[mm.end():]
+                ins.append((pos, b"pub "))
     if it["kind"] == "enum":
         # strip variant attributes such as #[default]
         for v in it["variants"]:
